@@ -167,6 +167,8 @@ class Analysis:
         key = (base, path)
         if key in st.mem:
             return st.mem[key]
+        if isinstance(base, tuple) and base and base[0] == "promoted" and not path and base in self.__dict__.get("_promoted", {}):
+            return self._promoted[base]  # constants are immutable
         # projection out of a stored aggregate
         for i in range(len(path) - 1, -1, -1):
             k2 = (base, path[:i])
@@ -252,6 +254,12 @@ class Analysis:
                 return ("I", self.tenv.length(c["args"][0]))
             if c["def"].startswith("typenum::Unsigned::"):
                 return ("I", self.tenv.length(c["args"][0]))
+            if c["def"] == "core::num::<impl usize>::MAX" and ty.get("k") == "prim" and ty.get("n") == "usize":
+                return ("I", Poly.atom(("umax",)))  # every usize quantity is <= umax (poly axiom)
+            if c.get("promoted") is not None:
+                pv = self.promoted_value(c)
+                if pv is not None:
+                    return pv
             # a crate-local, non-generic `const` item of integer / bool type: the value its (exported) body computes
             if not c.get("args") and c.get("promoted") is None and (is_int_ty(ty) or (ty.get("k") == "prim" and ty["n"] == "bool")):
                 cb = self.db.by_path.get(c["def"]) if self.db is not None else None
@@ -278,6 +286,37 @@ class Analysis:
         if k == "zst":
             return ("A", "unit", ())
         return ("V", "const", o.get("s", "?"))
+
+    def promoted_value(self, c):
+        """A promoted constant of the simple shape `_k = const X; _0 = &_k` (e.g. `&N::USIZE`): a pointer to a constant object holding X
+        (the promoted body is exported by the driver; its generic parameters are instantiated with the constant's own arguments)."""
+        cb = self.db.by_path.get(c["def"]) if self.db is not None else None
+        proms = (cb or {}).get("promoted") or []
+        i = c["promoted"]
+        if not (0 <= i < len(proms)):
+            return None
+        pm = proms[i]
+        if len(pm["blocks"]) != 1 or pm["blocks"][0]["term"]["k"] != "return":
+            return None
+        stmts = [x for x in pm["blocks"][0]["stmts"] if x["k"] == "assign"]
+        if len(stmts) != 2:
+            return None
+        a0, a1 = stmts
+        if not (a1["lhs"]["l"] == 0 and not a1["lhs"]["p"] and a1["rv"].get("k") == "ref" and not a1["rv"]["p"]["p"] and a1["rv"]["p"]["l"] == a0["lhs"]["l"]
+                and not a0["lhs"]["p"] and a0["rv"].get("k") == "use" and a0["rv"]["op"].get("k") == "const"):
+            return None
+        from .mirxf import generic_mapping, subst_types
+        targs = [a for a in c.get("args", []) if a.get("k") != "region"]
+        m = generic_mapping(cb, targs)
+        if m is None:
+            return None
+        op = subst_types(a0["rv"]["op"], m) if m else a0["rv"]["op"]
+        if op["c"].get("k") == "uneval" and op["c"].get("promoted") is not None:
+            return None
+        val = self.const_val(op)
+        base = ("promoted", c["def"], i, tuple(tstr(a) for a in targs))
+        self.__dict__.setdefault("_promoted", {})[base] = val
+        return ("P", base, Poly.const(0), None)
 
     def operand(self, st, o):
         k = o["k"]
@@ -313,18 +352,31 @@ class Analysis:
         if op in ("AddWithOverflow", "SubWithOverflow", "MulWithOverflow"):
             r = {"Add": pa + pb, "Sub": pa - pb, "Mul": pa * pb}[op[:3]]
             return ("A", "tuple", (("I", r), ("B", ("opaque", ("ovf", site)))))
+        def pow2(v):
+            return v > 0 and (v & (v - 1)) == 0
         if op == "Div":
             if pa.is_const() and pb.is_const() and pb.const_value() != 0:
                 return I(pa.const_value() // pb.const_value())
+            # unsigned division by a power of two is the shift (operands of the analysed code are unsigned counts / bytes)
+            if pb.is_const() and pow2(pb.const_value()) and pb.const_value() > 1:
+                return self.binop("Shr", a, I(pb.const_value().bit_length() - 1), site)
             return ("I", Poly.atom(("div", pa, pb)))
         if op == "Rem":
+            if pb.is_const() and pow2(pb.const_value()) and pb.const_value() > 1:
+                return self.binop("BitAnd", a, I(pb.const_value() - 1), site)
             return ("I", pa - Poly.atom(("div", pa, pb)) * pb)
         if op in ("Shr", "ShrUnchecked") and pb.is_const() and pb.const_value() == 1:
             return ("I", Poly.atom(("shr1", pa)))
+        if op in ("Shr", "ShrUnchecked") and pb.is_const() and pb.const_value() > 1:
+            return ("I", Poly.atom(("shr", pa, pb.const_value())))
         if op in ("Shl", "ShlUnchecked") and pb.is_const():
             return ("I", pa * Poly.const(1 << pb.const_value()))
         if op == "BitAnd" and pb.is_const() and pb.const_value() == 1:
             return ("I", Poly.atom(("and1", pa)))
+        if op == "BitAnd" and pb.is_const() and pow2(pb.const_value() + 1):
+            return ("I", Poly.atom(("band", pa, pb.const_value())))  # x & (2^k - 1): the low k bits
+        if op == "BitAnd" and pa.is_const() and pow2(pa.const_value() + 1) and pa.const_value() > 1:
+            return ("I", Poly.atom(("band", pb, pa.const_value())))
         return ("I", Poly.atom(("bin", op, pa, pb)))
 
     def rvalue(self, st, rv, site, lhs_ty=None):
@@ -632,6 +684,30 @@ class Analysis:
                     return ("P", p[1], p[2] + ip * es, None)
         if fn in ("core::slice::<impl [T]>::chunks", "core::slice::<impl [T]>::chunks_mut") and ptr() and len(args) > 1 and args[1][0] == "I":
             return ("V", "iter", "chunks", ptr(), args[1][1])
+        if fn in ("core::slice::<impl [T]>::chunks_exact", "core::slice::<impl [T]>::chunks_exact_mut") and ptr() and len(args) > 1 and args[1][0] == "I":
+            return ("V", "iter", "chunks_exact", ptr(), args[1][1])
+        # arithmetic / bit operators written on references to primitive integers (`c >> 4` with c: &u8) or through the operator traits:
+        # std's impls for the primitive integers are the built-in operation on the loaded values
+        OPS = {"core::ops::Shr::shr": "Shr", "core::ops::Shl::shl": "Shl", "core::ops::BitAnd::bitand": "BitAnd", "core::ops::Div::div": "Div", "core::ops::Rem::rem": "Rem",
+               "core::ops::Add::add": "Add", "core::ops::Sub::sub": "Sub", "core::ops::Mul::mul": "Mul"}
+        if fn in OPS and len(args) == 2 and targs:
+            def prim_int(t):
+                if t.get("k") == "ref":
+                    t = t["t"]
+                return t.get("k") == "prim" and is_int_ty(t)
+            if all(prim_int(t) for t in targs[:2]):
+                vals = []
+                for x, t in zip(args, targs[:2]):
+                    if x[0] == "P" and t.get("k") == "ref" and not x[2].t:
+                        x = self.read_cell(st, x[1], (), t["t"])
+                    vals.append(x)
+                if all(v[0] == "I" for v in vals):
+                    cs.no_effects = True
+                    return self.binop(OPS[fn], vals[0], vals[1], (cs.bb, None))
+        if fn in ("core::convert::From::from", "core::convert::Into::into") and len(args) == 1 and args[0][0] == "I" and len(targs) >= 2 \
+                and all(t.get("k") == "prim" and is_int_ty(t) for t in targs[:2]):
+            cs.no_effects = True
+            return args[0]  # lossless integer widening
         if fn in ("core::slice::<impl [T]>::iter", "core::slice::<impl [T]>::iter_mut"):
             p = ptr()
             if p:
@@ -780,6 +856,9 @@ class Analysis:
         if kind == "chunks":
             p = it[3]
             return ("P", p[1], p[2] + Poly.atom(("elemoff", tag)), Poly.atom(("chunklen", tag, it[4])))
+        if kind == "chunks_exact":
+            p = it[3]
+            return ("P", p[1], p[2] + Poly.atom(("elemoff", tag)), it[4])
         if kind == "enumerate":
             inner = self.iter_elem(it[3], tag + (0,))
             return None if inner is None else ("A", "tuple", (("I", Poly.atom(("enum_idx", tag))), inner))
@@ -1043,6 +1122,11 @@ class Analysis:
                 out.append((t["unwind"]["cleanup"], un))
             if t["target"] is not None:
                 self.write_place(st, t["dest"], r)
+                if fn == "core::hint::assert_unchecked" and args and args[0][0] == "B":
+                    # an assumption handed to the optimiser: the code after it may rely on it (whether it HOLDS at this point is an obligation
+                    # of the rules: cs.facts are the facts before the assumption, cs.args[0] the assumed condition)
+                    st.facts = st.facts | frozenset(self.cond_facts(args[0][1], True))
+                    cs.no_effects = True
                 out.append((t["target"], st))
         else:
             if record:
